@@ -48,15 +48,28 @@ def strbuf_of(v):
 
 
 def beq(I, a, b):
-    if isinstance(a, int) and isinstance(b, int):
-        return a == b
+    if isinstance(a, int):
+        if isinstance(b, int):
+            return a == b
+        a, b = b, a
+    if isinstance(b, int) and a.size() == 8 and 0 <= b < 256:
+        return I.ctx.decide_pred(a, 1 << b)
     return I.ctx.decide(a == b)
 
 
 def in_range(I, x, lo, hi):
     if isinstance(x, int):
         return lo <= x <= hi
+    if x.size() == 8:
+        return I.ctx.decide_pred(x, ((1 << (hi + 1)) - 1) & ~((1 << lo) - 1))
     return I.ctx.decide(z3.And(z3.UGE(x, lo), z3.ULE(x, hi)))
+
+
+def in_set(I, x, tt):
+    """membership of a byte in a constant set given as a 256-bit table"""
+    if isinstance(x, int):
+        return bool(tt >> x & 1)
+    return I.ctx.decide_pred(x, tt)
 
 
 def rng(x, lo, hi):
@@ -170,7 +183,10 @@ def decode_char(I, b, i):
         c = ((W(bs[0]) & 0x0F) << 12) | ((W(bs[1]) & 0x3F) << 6) | (W(bs[2]) & 0x3F)
     else:
         c = ((W(bs[0]) & 0x07) << 18) | ((W(bs[1]) & 0x3F) << 12) | ((W(bs[2]) & 0x3F) << 6) | (W(bs[3]) & 0x3F)
-    return z3.simplify(c), w
+    c = z3.simplify(c)
+    if c.get_id() not in CHAR_BOUNDS:
+        CHAR_BOUNDS[c.get_id()] = (c,) + {2: (0x80, 0x7FF), 3: (0x800, 0xFFFF), 4: (0x10000, 0x10FFFF)}[w]
+    return c, w
 
 
 def encode_char(I, c):
@@ -206,6 +222,25 @@ def chars_of(I, b):
 _UNI = None
 
 
+def ranges(cs):
+    """sorted scalar values -> list of (lo, hi, step) with step 1 or 2 (alternating-case blocks compress well)"""
+    runs = []
+    for c in sorted(cs):
+        if runs and runs[-1][1] == c - 1:
+            runs[-1][1] = c
+        else:
+            runs.append([c, c])
+    out = []
+    for lo, hi in runs:
+        if lo == hi and out and out[-1][2] == 2 and out[-1][1] == lo - 2:
+            out[-1][1] = lo
+        elif lo == hi and out and out[-1][0] == out[-1][1] and out[-1][1] == lo - 2:
+            out[-1][1], out[-1][2] = lo, 2
+        else:
+            out.append([lo, hi, 1])
+    return [tuple(x) for x in out]
+
+
 def unicode_tables():
     global _UNI
     if _UNI is None:
@@ -215,48 +250,96 @@ def unicode_tables():
         lower = {int(k): v for k, v in d['lowercase'].items()}
         fold = {int(k): v for k, v in d.get('unicase_fold', {}).items()}
         _UNI = {'upper': up, 'upper_r': ranges(up), 'lower': lower, 'fold': fold}
-        classes = {}
-        for c, m in lower.items():
-            key = ('d', m[0] - c) if len(m) == 1 else ('m', tuple(m))
-            classes.setdefault(key, []).append(c)
-        _UNI['lower_classes'] = [(k, ranges(v)) for k, v in sorted(classes.items(), key=lambda kv: -len(kv[1]))]
-        _UNI['lower_dom_r'] = ranges(lower.keys())
+        deltas, multi = {}, {}
+        for c, mp in lower.items():
+            if c < 0x80:
+                continue
+            if len(mp) == 1:
+                deltas.setdefault(mp[0] - c, []).append(c)
+            else:
+                multi[c] = list(mp)
+        _UNI['lower_deltas'] = [(dl, ranges(v)) for dl, v in sorted(deltas.items(), key=lambda kv: -len(kv[1]))]
+        _UNI['lower_multi'] = multi
     return _UNI
 
 
-def ranges(cs):
+_IR = {}
+CHAR_BOUNDS = {}     # char term id -> (term, lo, hi): scalar-value bounds implied by the UTF-8 width it was decoded from
+
+
+def rng3(c, lo, hi, step):
+    if step == 1 or lo == hi:
+        return rng(c, lo, hi)
+    if isinstance(c, int):
+        return lo <= c <= hi and (c - lo) % 2 == 0
+    return z3.And(z3.UGE(c, lo), z3.ULE(c, hi), z3.Extract(0, 0, c) == (lo & 1))
+
+
+def clip_ranges(rs, blo, bhi):
     out = []
-    for c in sorted(cs):
-        if out and out[-1][1] == c - 1:
-            out[-1][1] = c
-        else:
-            out.append([c, c])
+    for lo, hi, st in rs:
+        if hi < blo or lo > bhi:
+            continue
+        if lo < blo:
+            lo = blo + ((blo - lo) % st)
+        if hi > bhi:
+            hi = bhi - ((bhi - lo) % st)
+        if lo <= hi:
+            out.append((lo, hi, st))
     return out
 
 
 def in_ranges(c, rs):
-    return b_or(*[rng(c, lo, hi) for lo, hi in rs])
+    """membership of a scalar value in a list of (lo, hi, step) ranges (formula memoised per term)"""
+    if isinstance(c, int):
+        return any(lo <= c <= hi and (c - lo) % st == 0 for lo, hi, st in rs)
+    key = (c.get_id(), id(rs))
+    r = _IR.get(key)
+    if r is not None:
+        return r[1]
+    bd = CHAR_BOUNDS.get(c.get_id())
+    use = clip_ranges(rs, bd[1], bd[2]) if bd is not None else rs
+    f = b_or(*[rng3(c, lo, hi, st) for lo, hi, st in use])
+    _IR[key] = (c, f, rs)
+    return f
+
+
+_LOWER_EXPR = {}
 
 
 def char_lower_seq(I, c):
-    """char::to_lowercase as a list of scalar values (forks on the mapping class)"""
+    """char::to_lowercase as a list of scalar values.  Forks only for ASCII / multi-char mappings; the
+    single-char non-ASCII mapping is one piecewise term c + delta(c)."""
+    U = unicode_tables()
     if isinstance(c, int):
-        U = unicode_tables()
+        if c < 0x80:
+            return [c + 0x20 if 0x41 <= c <= 0x5A else c]
         return list(U['lower'].get(c, [c]))
     c = zx(c)
-    if I.ctx.decide(z3.ULT(c, 0x80)):
-        if I.ctx.decide(rng(c, 0x41, 0x5A)):
-            return [z3.simplify(c + 0x20)]
-        return [c]
-    U = unicode_tables()
-    if not I.ctx.decide(in_ranges(c, U['lower_dom_r'])):
-        return [c]
-    for key, rs in U['lower_classes']:
-        if I.ctx.decide(in_ranges(c, rs)):
-            if key[0] == 'd':
-                return [z3.simplify(c + z3.BitVecVal(key[1] % 2 ** 32, 32))]
-            return list(key[1])
-    return [c]
+    bd = CHAR_BOUNDS.get(c.get_id())
+    if bd is None or bd[1] < 0x80:
+        if I.ctx.decide(z3.ULT(c, 0x80)):
+            if I.ctx.decide(rng(c, 0x41, 0x5A)):
+                return [z3.simplify(c + 0x20)]
+            return [c]
+    for k, mp in sorted(U['lower_multi'].items()):
+        if bd is not None and not (bd[1] <= k <= bd[2]):
+            continue
+        if I.ctx.decide(c == k):
+            return list(mp)
+    r = _LOWER_EXPR.get(c.get_id())
+    if r is None:
+        e = c
+        blo, bhi = (bd[1], bd[2]) if bd is not None else (0x80, 0x10FFFF)
+        for dl, rs in U['lower_deltas']:
+            use = clip_ranges(rs, blo, bhi)
+            if not use:
+                continue
+            cond = b_or(*[rng3(c, lo, hi, st) for lo, hi, st in use])
+            e = z3.If(cond, c + z3.BitVecVal(dl % 2 ** 32, 32), e)
+        r = (c, z3.simplify(e))
+        _LOWER_EXPR[c.get_id()] = r
+    return [r[1]]
 
 
 # =========================================================================================
@@ -639,7 +722,7 @@ def m_str_contains(I, c, s, pat):
             if isinstance(x, int):
                 if x in pats:
                     return True
-            elif I.ctx.decide(z3.Or([x == q for q in pats])):
+            elif in_set(I, x, sum(1 << q for q in set(pats))):
                 return True
         return False
     raise Unsupported('str::contains pattern %r' % (p,))
@@ -805,8 +888,9 @@ def m_is_uppercase(I, c, r):
     if isinstance(x, int):
         return 0x41 <= x <= 0x5A or x in U['upper']
     x = zx(x)
+    bd = CHAR_BOUNDS.get(x.get_id())
     # ASCII fast path keeps the formula small for the common case
-    if I.ctx.decide(z3.ULT(x, 0x80)):
+    if (bd is None or bd[1] < 0x80) and I.ctx.decide(z3.ULT(x, 0x80)):
         return rng(x, 0x41, 0x5A)
     return in_ranges(x, U['upper_r'])
 
@@ -1755,7 +1839,9 @@ def m_pe_display(I, c, r, f):
     pe = deref_all(r)
     out = deref_all(f).out
     HX = b'0123456789ABCDEF'
-    aset = sorted(pe.aset)
+    esc_tt = ((1 << 256) - 1) & ~((1 << 128) - 1)
+    for a in pe.aset:
+        esc_tt |= 1 << a
     for x in pe.b:
         if isinstance(x, int):
             if x >= 0x80 or x in pe.aset:
@@ -1763,7 +1849,7 @@ def m_pe_display(I, c, r, f):
             else:
                 out.append(x)
         else:
-            esc = I.ctx.decide(z3.Or([x == a for a in aset] + [z3.UGE(x, 0x80)]))
+            esc = I.ctx.decide_pred(x, esc_tt)
             if esc:
                 out.extend([0x25, z3.simplify(hexdigit_upper(z3.LShR(x, 4))), z3.simplify(hexdigit_upper(x & 15))])
             else:
